@@ -13,7 +13,7 @@ CONFIG = dict(
              '0,1,19,31,32,33,48 bytes with any threshold and timeout; modes: identical content moved with and without a mode change in groups '
              'of 0..3 deletions x 0..3 additions per hash at sizes 0,1,8,31,32,33,40,64,100,200 with same-text / one-byte-longer / other-text '
              'neighbours, thresholds -1..250 incl. 0,1,99,100, timeouts 1 ns .. 1 h, the same path on both sides; sim/timeout: families of similar '
-             'text and binary blobs of 30..300 bytes (stage 2, both winners, timeout cuts); midrun: 4..10 deleted x added mostly dissimilar blobs, '
+             'text and binary blobs of 30..300 bytes, one in six filled with multi-byte runes / invalid UTF-8 / CR / CRLF (stage 2, both winners, timeout cuts); midrun: 4..10 deleted x added mostly dissimilar blobs, '
              'Consume timed without a timeout and then run with 3..97 % of that time (the timeout expires inside stage 2); thresh: one-line blobs '
              'on the exact boundaries of sizesAreClose and of the 32-byte minimum, plus the real sizesAreClose on 12 size pairs per case from '
              '{0,1,2,31,32,33,99..101,S,S*thr/100+-1,2^15,2^16,2^31-1,2^31,2^32,2^32+1,2^40}; cap: 55..75 candidates with the only similar one '
